@@ -1,6 +1,6 @@
 (* C17 — BUILD numbers grow numerically and lexically forever. *)
 From Coq Require Import List Bool NArith Arith.
-From BV Require Import Lib.PyStr Lib.Decimal Model.Lexid Proofs.DecimalFacts Proofs.LexidFacts.
+From BV Require Import Lib.PyStr Lib.Decimal Model.Lexid Proofs.DecimalFacts Proofs.LexidFacts Proofs.LexidChainFacts.
 Import ListNotations.
 
 Theorem C17_next_id_none_iff : forall s : list N,
@@ -40,6 +40,26 @@ Theorem C17_bump_chain_spec : forall (n : nat) (b : list N) (l : list (list N)),
       ((1 <= i)%nat \/ (4 <= length b)%nat -> lt_str x y = true)).
 Proof. exact bump_chain_spec. Qed.
 Print Assumptions C17_bump_chain_spec.
+
+(* any two values of a chain, however far apart: numeric increase always, string increase
+   from the first generated value on (or from the start when it has four digits) *)
+Theorem C17_bump_chain_all_pairs : forall (n : nat) (b : list N) (l : list (list N)),
+  all_digits b = true -> b <> [] -> bump_chain n b = Some l ->
+  forall d i x y, nth_error (b :: l) i = Some x -> nth_error (b :: l) (i + S d)%nat = Some y ->
+    (undec x < undec y)%N /\ ((1 <= i)%nat \/ (4 <= length b)%nat -> lt_str x y = true).
+Proof. exact bump_chain_all_pairs. Qed.
+Print Assumptions C17_bump_chain_all_pairs.
+
+Theorem C17_bump_chain_no_repeat : forall (n : nat) (b : list N) (l : list (list N)),
+  all_digits b = true -> b <> [] -> bump_chain n b = Some l ->
+  forall i j x, (i < j)%nat -> nth_error (b :: l) i = Some x -> nth_error (b :: l) j = Some x -> False.
+Proof. exact bump_chain_no_repeat. Qed.
+Print Assumptions C17_bump_chain_no_repeat.
+
+Theorem C17_lt_str_trans : forall a b c : list N,
+  lt_str a b = true -> lt_str b c = true -> lt_str a c = true.
+Proof. exact lt_str_trans. Qed.
+Print Assumptions C17_lt_str_trans.
 
 Theorem C17_undec_dec : forall n : N, undec (dec n) = n.
 Proof. exact undec_dec. Qed.
